@@ -115,7 +115,7 @@ FAULT_KINDS = {
 }
 
 
-def run_qq(tree, ids, workdir, case, fault=None, kill=None, uid=None):
+def run_qq(tree, ids, workdir, case, fault=None, kill=None, uid=None, sig=None):
     """One run on an empty queue. Returns dict(trace, exit, killed)."""
     name, inp, sender, rcpts, env, defect = case
     sandbox.clear_queue(tree.root)
@@ -133,6 +133,8 @@ def run_qq(tree, ids, workdir, case, fault=None, kill=None, uid=None):
         extra["VERIF_FAULT"] = "%d:%s" % fault
     if kill:
         extra["VERIF_KILL"] = str(kill)
+        if sig:
+            extra["VERIF_KILL_SIG"] = str(sig)
     e = sandbox.shim_env(tree, ids=ids, trace=trace, role="qq", extra=extra)
     with open(os.path.join(indir, "msg"), "rb") as f0, open(os.path.join(indir, "env"), "rb") as f1:
         p = subprocess.run([tree.bin("qmail-queue")], stdin=f0, stdout=f1, stderr=subprocess.PIPE, env=e, timeout=60)
